@@ -114,6 +114,29 @@ def gen_molecule(rng, quick):
             "sel": None}
 
 
+
+def grid_molecules(rng):
+    """every centre element x formal charge x spin x multiset of up to three neighbour bonds (single, double, triple,
+    aromatic): the whole domain of the count formula, in a non-degenerate (tetrahedral-like, jittered) geometry"""
+    import itertools
+    dirs = [(0.0, 0.0, 1.0), (0.9428, 0.0, -0.3333), (-0.4714, 0.8165, -0.3333), (-0.4714, -0.8165, -0.3333)]
+    for z in (5, 6, 7, 8, 14, 15, 16):
+        for q in (-1, 0, 1):
+            for sp in (0, 1, 2):
+                for nn in range(0, 4):
+                    for bts in itertools.combinations_with_replacement((1, 2, 3, 20), nn):
+                        atoms = [{"z": z, "q": q, "spin": sp, "cc": False, "hint": None,
+                                  "xyz": (0.25, -0.5, 0.125), "pc": 0.0}]
+                        bonds = []
+                        for t, bt in enumerate(bts):
+                            d = dirs[t]
+                            jit = [0.1 * (rng.uniform() - 0.5) for _ in range(3)]
+                            atoms.append({"z": 9, "q": 0, "spin": 0, "cc": False, "hint": None,
+                                          "xyz": tuple(atoms[0]["xyz"][c] + 1.5 * d[c] + jit[c] for c in range(3)), "pc": 0.0})
+                            bonds.append([0, t + 1, bt, "1/1"] if t % 2 == 0 else [t + 1, 0, bt, "1/1"])
+                        yield {"atoms": atoms, "bonds": bonds, "cls": "Structure", "sel": None}
+
+
 def choose_subset(rng, mol, group_of):
     idx = [i for i, a in enumerate(mol["atoms"]) if 13 <= group_of(a["z"]) <= 17]
     rng.shuffle(idx)
@@ -462,8 +485,16 @@ def run(ctx):
             added = run_case(ctx, mol, "corpus", requests, **kw)
             account(mol, added, "corpus")
 
+    # ---- the whole domain of the count formula on one centre ----
+    for mol in grid_molecules(rng):
+        ctx.check_deadline()
+        mol = mol_to_json(mol)
+        added = run_case(ctx, mol, "grid", requests, **kw)
+        account(mol, added, "grid")
+    ctx.extra_cov["count_formula_grid"] = "7 elements x 3 charges x 3 spins x 35 neighbour-bond multisets (exhaustive)"
+
     # ---- random organic-like molecules ----
-    nrand = 400 if ctx.quick() else 6000
+    nrand = 300 if ctx.quick() else 40000
     for k in range(nrand):
         ctx.check_deadline()
         mol = gen_molecule(rng, ctx.quick())
